@@ -10,7 +10,7 @@ Definition reach (P : params) (gfh : Z) (ops : list op) : state := run P (init_s
 
 (* number of block headers delivered by a history *)
 Definition hdr_count (o : op) : nat :=
-  match o with OHeaders _ _ hs => length hs | _ => 0%nat end.
+  match o with OHeaders _ _ hs | OHeadersF _ _ hs _ => length hs | _ => 0%nat end.
 Fixpoint hdr_total (ops : list op) : nat :=
   match ops with [] => 0%nat | o :: r => (hdr_count o + hdr_total r)%nat end.
 
@@ -40,8 +40,12 @@ Definition ev_conn_only (o : op) (s s' : state) : Prop :=
    at height k, and the same message then rolled back below it (checkpoint
    mismatch): x is announced as disconnected although it was not in the chain
    before the operation; the events are still exact, in order *)
+(* a headers message, handled with or without a failing header-store write *)
+Definition headers_op (o : op) : Prop :=
+  (exists p now hs, o = OHeaders p now hs) \/ (exists p now hs k, o = OHeadersF p now hs k).
+
 Definition ev_phantom (o : op) (s s' : state) : Prop :=
-  (exists p now hs, o = OHeaders p now hs) /\
+  headers_op o /\
   let Hb := map hid (chain s) in
   exists (x : header) (k m : nat),
     hid x ∉ Hb /\ (1 <= m <= k)%nat /\ (k <= length Hb)%nat /\
